@@ -13,3 +13,57 @@ HOOKS = {
 claim("C01", "model_checking", "explicit-state BFS over operation sequences + exhaustive tree/route/obscuration enumeration against an independent digest model",
       "Every tree up to the weight bound, built along every insertion permutation and route, every obscuration pattern, and every state of a bounded-depth breadth-first search over the public mutators is compared position by position with digests computed by an independent implementation of the specification (own SHA-256 and dCBOR).",
       "Trusted: my reading of draft-mcnally-envelope-09 (anchored to its worked digests at start-up); bounds on tree weight, alphabets and depth as reported in the evidence.")
+claim("C02", "exploration", "exhaustive enumeration of target subsets x modes x actions on all trees up to a weight bound (two passes), position-wise digest oracle",
+      "All trees up to the weight bound x all subsets of their digests (plus an absent one) x removing/revealing x Elide/Encrypt/Compress, then the same menu again on every distinct result, plus the whole-envelope operations: root digest and every surviving position's digest compared with the original. Exhaustive within the bounds, so it is an exploration-level coverage statement rather than a proof.",
+      "Bounds on tree weight; atoms from a 3-element alphabet; a panic on an already-obscured target is 'no result' here and is C16's business.")
+claim("C03", "exploration", "exhaustive enumeration of elisions against the statement's own hidden/visible semantics + byte-exact model encoding + marker residue search",
+      "Every tree (unique leaf markers; also re-used markers for multi-position targets) x every target subset x both modes x three actions is compared with a model of the statement (hidden iff own or ancestor digest targeted; visible iff own and all ancestors targeted); Elide results must serialise to exactly the model's bytes and contain no hidden marker; all (placeholder, candidate) pairs for unelide.",
+      "Residue = dCBOR encoding of hidden leaves (unique markers >= 3 bytes); already-obscured targeted elements may stay in any obscured form.")
+claim("C04", "model_checking", "explicit-state breadth-first search over public operation sequences on real envelopes with an invariant evaluated in every state",
+      "BFS from every small envelope (and decode-only shapes) over ~55 parameterised operations; every distinct state is checked by independent digest recomputation, strict ordering / uniqueness / slot-kind checks, an independent dCBOR+CDDL recogniser on its bytes and a decode round trip; receiver immutability on every expansion.",
+      "Depth and root bounds as reported; operations with random output use fixed material so the state key (cases, digests, leaf bytes) determines futures.")
+claim("C05", "exploration", "exhaustive round-trip enumeration over the leaf alphabet x positions and trees x obscuration patterns",
+      "Every leaf value of the alphabet at six position kinds, every tree up to the bound under every obscuration pattern and the decode-only shapes: encode, decode, compare case+digest position by position, is_identical_to, re-encode, compare with the model's CDDL bytes, UR round trip.",
+      "Leaf alphabet chosen per CBOR head-width boundary and per CBOR case; values outside it are not covered.")
+claim("C06", "exploration", "exhaustive input-family enumeration (all short byte strings, all single-byte edits, structural mutation grammar) against an independent recogniser",
+      "Four exhaustive families of byte strings - valid encodings, single/double structural mutations and non-deterministic re-encodings, every single-byte replace/delete/insert, and ALL byte strings up to a length bound bare and tagged - each judged: Err, or Ok with identical re-encoding (tag-24 alias only), and Ok is a violation when the independent recogniser rejects for a reason the statement names. Runs in a child process so aborts are attributed.",
+      "My recogniser is stricter/looser than dcbor only in ways that cannot raise an alarm: 'impl rejects, recogniser accepts' is counted, not reported; NFC is not checked.")
+claim("C07", "model_checking", "exhaustive permutations-with-repetition of insertions + algebraic laws checked at every state of the explicit-state search + collection inputs in every insertion order",
+      "Every insertion sequence up to the length bound over a 7-element assertion pool x 5 subjects x 3 add APIs grouped by resulting set (byte identity + model bytes); add-present / add-remove / wrap-unwrap / immutability laws at every BFS state; Vec/HashMap/HashSet/Map/Set inputs built in every insertion order in fresh instances.",
+      "Hash iteration order cannot be injected: fresh instances per order make an order-dependent encoder visible with overwhelming probability, stated in the evidence.")
+claim("C08", "fault_enumeration", "exhaustive single-bit and single-field fault injection on every encrypted element + all (content, declared digest) forgery pairs",
+      "Every tree x keys x nonces x three encryption entry points round-trips identically with the model digest; wrong key, EVERY single-bit flip of ciphertext/nonce/tag/AAD re-wrapped through the decoder, field swaps and AAD removal must give Err; every ordered (plaintext X, declared digest Y) forgery bare and as node subject must give Err; second encryption refused.",
+      "Keys are data values from a finite set; AEAD strength is exercised, not analysed.")
+claim("C09", "exploration", "exhaustive enumeration of signer subsets x schemes x obscuration patterns x key lists x thresholds against a signer-set model, with adversarial 'signed' assertions",
+      "For each base tree, signer subset and scheme assignment: as-is, later assertions, every obscuration pattern of non-signature parts, transplanted signatures and a menu of adversarial 'signed' assertions; every key through every verification API, every key list (<=3 with repetition) x every threshold; returned metadata independently checked for coverage by the same key.",
+      "'verifies' = Ok(true)/Ok(envelope); Ok(false) and Err are both 'does not verify'. ML-DSA keys cannot be seeded.")
+claim("C10", "exploration", "exhaustive recipient lists x private keys enumeration; all sender/recipient scheme pairs for seal/unseal",
+      "Every tree x every recipient list (with repetition) x every listed and never-listed private key through decrypt_subject_to_recipient, the wrap form, add_recipient for every ordered pair, and seal/unseal with right/wrong sender/recipient.",
+      "Finite key set incl. X25519 and ML-KEM levels; ML-KEM keys cannot be seeded.")
+claim("C11", "exploration", "exhaustive enumeration of SSKR policies x all share subsets against a policy model, plus mixed splits",
+      "Every policy within (groups, members) bounds x EVERY subset of the generated share envelopes (both orders): join is Ok(original subject) iff the policy model is satisfied, else Err; never another envelope, never a panic; unions of subsets from two splits with different and equal identifiers.",
+      "Share generation through sskr_split_using with seeded generators.")
+claim("C12", "exploration", "exhaustive enumeration of target subsets (present/absent) with completeness, root-only verifier acceptance, digest-stated minimality and soundness against other targets / envelopes / mutated proofs",
+      "Every tree (both marker instantiations) x every non-empty digest subset with and without an absent digest: proof iff all present; produced proofs have the root digest, are accepted by a verifier holding only the root digest, disclose only path elements; every other target set, every other envelope and single-element mutations are rejected unless genuinely valid.",
+      "Minimality is stated by digest so repeated content cannot raise an alarm.")
+claim("C13", "model_checking", "explicit-state BFS over {compress, compress_subject, uncompress, uncompress_subject, add, wrap, encode-decode} with laws at every state + exhaustive bit-flip fault injection",
+      "At every state: digest invariance of the four (un)compress operations, round-trip and idempotence laws also with an assertion added in between; every bit of compressed data / checksum / size flipped, digest replaced, content-vs-declared-digest forgeries bare and as node subject.",
+      "A flip that leaves the inflated bytes unchanged is not corruption.")
+claim("C14", "exploration", "all ordered pairs (and triples) of an exhaustively generated variant family judged by (model digest, observed obscuration pattern)",
+      "Per base tree the family {original, every obscuration pattern under Elide/Encrypt(k0)/Encrypt(k1)/Compress, two-action mixes, re-decoded copies, unrelated envelopes}; is_equivalent_to, is_identical_to, == and structural_digest equality on ALL ordered pairs against the oracle, transitivity on triples.",
+      "The variant family per base is capped (reported); within the cap all pairs are compared.")
+claim("C15", "exploration", "exhaustive enumeration of trees x obscuration patterns with both walks compared to an independent traversal as multisets of (path, depth, edge, parent context); all level limits; all predicates; extraction over integer boundaries x types",
+      "Structure and tree walks, elements_count, digests(l) for every l, accessors, predicate lookups (present, through an elided predicate, absent) with error kinds, and typed extraction: stored value or error, never another value.",
+      "Sibling order and tree-mode edge kinds are not compared; node-subject-of-node parents in tree mode are unspecified.")
+claim("C16", "exploration", "exhaustive cross product of an envelope family (shapes, decorated/obscured special assertions, adversarially decoded mutants) x ~230 public operations inside catch_unwind, keyed by panic site",
+      "Every operation of the query / transform / obscure / verify / parse / format families on every envelope of the family; a panic is a violation keyed by its source location, so a new site is a new finding even in a known operation.",
+      "Documented builder preconditions are outside the menus.")
+claim("C17", "exploration", "one envelope per serialised size (every value up to the bound) x scripted generator answers (boundary + Lemire rejection zone); all explicit lengths and ranges; all pairs of byte streams",
+      "Result = original + exactly one 'salt' assertion whose length is inside the documented range, both ends of each range reached by some script (non-vacuity); short requests refused; decorrelation across byte streams and determinism under equal scripts; salted-add structure and unsalted determinism.",
+      "OS randomness is a trusted base; add_assertion_salted has no generator seam (smoke-checked for decorrelation).")
+claim("C18", "exploration", "exhaustive enumeration of functions x parameter lists x values x notes x dates x response variants round-tripped; breadth-first malformed variants over a mutation alphabet",
+      "value -> envelope -> parse (direct and via serialisation) == value; documented shape observed; expected-function check against every function; every malformed variant to the mutation depth judged by counting result/error/body/content assertions and the subject tag independently.",
+      "Bounds on list length and mutation depth as reported.")
+claim("C19", "exploration", "exhaustive sequences (order, repetition) of attachments x all 16 filters x single-result error kinds; every single malformation; every type subset x every type query",
+      "attachments() returns exactly the added set with identical payload/vendor/conformsTo via both add routes; filters equal the model filter; none/several map to the right errors; any malformed attachment assertion makes the query fail; type checks true exactly for added types.",
+      "Any error is accepted for malformed attachments.")
